@@ -4,8 +4,11 @@ import (
 	"bytes"
 	"encoding/binary"
 	"fmt"
+	"github.com/mycoria/mycoria/mgr"
+	"github.com/mycoria/mycoria/router"
 	"math/rand/v2"
 	"time"
+	"verifharness/vmesh"
 
 	"github.com/fxamacker/cbor/v2"
 
@@ -137,6 +140,7 @@ func (s *scripted) sendSealed(body any) error {
 // It returns whether the victim registered a link to the scripted peer.
 func scriptedHandshake(res *core.Result, victim *wire.Router, idV *m.Address, peer *env.Instance, universe string, mirror bool) (linked bool, detail string, ok bool) {
 	w := wire.New()
+	baseLinks := victim.Inst.PeeringV.LinkCnt()
 	done := make(chan wire.SetupResult, 1)
 	go func() {
 		l, err := victim.Inst.PeeringV.VerifSetupLink(w.B, wire.URL, false)
@@ -224,8 +228,13 @@ func scriptedHandshake(res *core.Result, victim *wire.Router, idV *m.Address, pe
 		time.Sleep(300 * time.Microsecond)
 	}
 	linked = victim.Inst.PeeringV.GetLink(peer.IdentityV.IP) != nil
-	if reg, what := registered(victim, peer.IdentityV); reg {
-		linked, detail = true, what
+	if n := victim.Inst.PeeringV.LinkCnt(); n > baseLinks {
+		linked, detail = true, fmt.Sprintf("%d link(s) registered, %d before", n, baseLinks)
+	}
+	for _, e := range victim.Inst.RoutingTable().VerifEntries() {
+		if e.Source == m.RouteSourcePeer && e.DstIP == peer.IdentityV.IP {
+			linked, detail = true, "peer route for "+e.DstIP.String()
+		}
 	}
 	if l := victim.Inst.PeeringV.GetLink(peer.IdentityV.IP); l != nil {
 		l.Close(nil)
@@ -392,3 +401,163 @@ func doubleDial(res *core.Result, r *rand.Rand) {
 
 var _ = peering.FrameOffset
 var _ = state.DefaultPrecision
+
+// foreignAck: the remote B runs two handshakes at the same time, with the router under test A and with a third
+// router C. An attacker on the path delivers to A, in place of B's last message for A, B's last message for C
+// (validly signed by B, newer than anything A has seen from B, but addressed to C and carrying B's key share
+// for C). A must abort and register nothing.
+func foreignAck(res *core.Result, r *rand.Rand) {
+	idA, idB, idC := env.NewIdentity(r, nil), env.NewIdentity(r, nil), env.NewIdentity(r, nil)
+	for round := 0; round < 4; round++ {
+		cfg := config.Router{Universe: "test"}
+		A, B, C := wire.NewRouter(idA, cfg), wire.NewRouter(idB, cfg), wire.NewRouter(idC, cfg)
+		// A is the listener in even rounds, the dialler in odd rounds
+		aListens := round%2 == 0
+		w1, w2 := wire.New(), wire.New()
+		dirB := wire.AtoB // direction of B's messages on w1
+		if !aListens {
+			dirB = wire.BtoA
+		}
+		w1.Hold(dirB, 2)
+		w2.Hold(wire.AtoB, 2)
+		doneA := make(chan wire.SetupResult, 1)
+		go func() {
+			var l peering.Link
+			var err error
+			if aListens {
+				l, err = A.Inst.PeeringV.VerifSetupLink(w1.B, wire.URL, false)
+			} else {
+				l, err = A.Inst.PeeringV.VerifSetupLink(w1.A, wire.URL, true)
+			}
+			doneA <- wire.SetupResult{Link: l, Err: err, Done: true}
+		}()
+		go func() {
+			if aListens {
+				_, _ = B.Inst.PeeringV.VerifSetupLink(w1.A, wire.URL, true)
+			} else {
+				_, _ = B.Inst.PeeringV.VerifSetupLink(w1.B, wire.URL, false)
+			}
+		}()
+		parked := func(w *wire.Wire, d wire.Dir) bool {
+			deadline := time.Now().Add(5 * time.Second)
+			for !w.Parked(d, 2) {
+				if time.Now().After(deadline) {
+					return false
+				}
+				time.Sleep(200 * time.Microsecond)
+			}
+			return true
+		}
+		closeAll := func() {
+			for _, w := range []*wire.Wire{w1, w2} {
+				w.A.Close()
+				w.B.Close()
+				w.ReleaseAll()
+			}
+		}
+		if !parked(w1, dirB) {
+			res.Count("foreign_ack_not_reached", 1)
+			closeAll()
+			time.Sleep(4 * time.Millisecond)
+			continue
+		}
+		time.Sleep(3 * time.Millisecond)
+		go func() { _, _ = C.Inst.PeeringV.VerifSetupLink(w2.B, wire.URL, false) }()
+		go func() { _, _ = B.Inst.PeeringV.VerifSetupLink(w2.A, wire.URL, true) }()
+		if !parked(w2, wire.AtoB) {
+			res.Count("foreign_ack_not_reached", 1)
+			closeAll()
+			time.Sleep(4 * time.Millisecond)
+			continue
+		}
+		ackForC := w2.SentIn(wire.AtoB)[2].Data
+		w1.Plan = func(d wire.Dir, idx int, msg []byte) [][]byte {
+			if d == dirB && idx == 2 {
+				return [][]byte{ackForC}
+			}
+			return [][]byte{msg}
+		}
+		w1.Release(dirB, 2)
+		var ra wire.SetupResult
+		select {
+		case ra = <-doneA:
+		case <-time.After(3 * time.Second):
+			w1.A.Close()
+			w1.B.Close()
+			select {
+			case ra = <-doneA:
+			case <-time.After(15 * time.Second):
+			}
+		}
+		if reg, what := registered(A, idB); reg || (ra.Done && ra.Err == nil && ra.Link != nil) {
+			res.Violate("link-registered-after-foreign-ack", fmt.Sprintf("the router completed a handshake whose last message was the peer's last message for a third router (addressed to that router, carrying the key share meant for it) and registered a link (%s; A listens: %v)", what, aListens),
+				map[string]any{"a_listens": aListens, "case_id": "foreign-ack"})
+			closeAll()
+			return
+		}
+		res.Count("foreign_acks_refused", 1)
+		res.Case(fmt.Sprintf("scripted|foreign-ack|listens=%v", aListens), true)
+		if ra.Link != nil {
+			ra.Link.Close(nil)
+		}
+		closeAll()
+		time.Sleep(4 * time.Millisecond)
+	}
+}
+
+// pingThenImpostor: a router that runs both the ping handler and the peering manager first receives (and must
+// refuse) a first-contact ping that claims address P under the attacker's key; then the attacker dials it and runs
+// the handshake naming P's genuine public address but signing everything with its own key. No link to P may be
+// registered: the remote never proved possession of P's key.
+func pingThenImpostor(res *core.Result, r *rand.Rand) {
+	for round := 0; round < 3; round++ {
+		idV, idP, idM := env.NewIdentity(r, nil), env.NewIdentity(r, nil), env.NewIdentity(r, nil)
+		ms := vmesh.New()
+		v, err := ms.AddNode(idV, vmesh.NodeOpts{})
+		if err != nil {
+			res.Inconcl("node: %v", err)
+			return
+		}
+		stub := ms.AddStub(&m.Address{PublicAddress: m.PublicAddress{IP: idM.IP}})
+		if err := ms.ConnectOneWay(0, stub.Idx, 41); err != nil {
+			res.Inconcl("connect: %v", err)
+			return
+		}
+		// 1. the ping: source P, header key of M, signed by M
+		hdr := router.PingHeader{PingID: r.Uint64() | 1, PingType: "pong", AddrHash: idM.Hash, KeyType: idM.Type, PublicKey: idM.PublicKey}
+		hd, _ := cbor.Marshal(&hdr)
+		body, _ := cbor.Marshal(map[string]string{"msg": "ping"})
+		f, err := v.Inst.BuilderV.NewFrameV1(idP.IP, idV.IP, frame.RouterPing, nil, append(append([]byte{1, byte(len(hd))}, hd...), body...), nil)
+		if err != nil {
+			continue
+		}
+		f.SetTTL(0)
+		f.SetSequenceTime(time.Now().Round(time.Millisecond).Add(-2 * time.Millisecond))
+		_ = f.SignRaw(idM.PrivateKey)
+		f.SetTTL(30)
+		fd, _ := f.FrameDataWithMargins(0, 0)
+		ping := append([]byte(nil), fd...)
+		f.ReturnToPool()
+		if _, perr := ms.HandleAtRouter(0, 1, ping); perr != nil {
+			res.Violate("handler-panic", fmt.Sprintf("first-contact ping: %v", perr), nil)
+			return
+		}
+		// 2. the handshake: P's public address, M's private key
+		impostor := &m.Address{PublicAddress: idP.PublicAddress, PrivateKey: idM.PrivateKey}
+		peer := env.NewBareInstance(impostor, config.MakeTestConfig(config.Store{System: config.System{DisableTun: true}}))
+		victim := &wire.Router{Inst: v.Inst, Upstream: make(chan frame.Frame, 64), Alerts: mgr.NewAlertMgr(v.Inst.PeeringV.Manager())}
+		linked, detail, ok := scriptedHandshake(res, victim, idV, peer, "", false)
+		if !ok {
+			res.Count("ping_then_impostor_unusable", 1)
+			continue
+		}
+		if linked {
+			res.Violate("link-registered-for-impostor:after-refused-ping", fmt.Sprintf("after refusing a first-contact ping that claimed %s under a foreign key, the router registered a link to %s for a remote that signed the whole handshake with that foreign key (%s)", idP.IP, idP.IP, detail),
+				map[string]any{"case_id": "ping-then-impostor"})
+			return
+		}
+		res.Count("ping_then_impostor_refused", 1)
+		res.Case(fmt.Sprintf("scripted|ping-then-impostor|%d", round), true)
+		time.Sleep(3 * time.Millisecond)
+	}
+}
